@@ -1,21 +1,79 @@
-"""Spec-level helpers: recursive sums with definitional unfolding (no free axioms)."""
+"""Spec-level helpers: recursive sums with definitional unfolding (no free axioms).
+
+A RecSum is *closed by lambda lifting*: every free constant of its summand (arrays, scalars, symbols of
+the enclosing verification context) becomes an explicit leading argument of the z3 function, and the
+function symbol is keyed by a hash of the summand with those constants renamed canonically.  Hence one
+symbol has exactly one definition, whatever arrays or offsets a call site passes: using instances of the
+two defining equations as hypotheses is a conservative (definitional) extension.
+"""
+import hashlib
+
 import z3
+
+_REG = {}     # key -> z3 FuncDecl
+
+
+def _free_consts(e, exclude):
+    out = []
+    seen = set()
+    ex = {x.get_id() for x in exclude}
+
+    def walk(x):
+        k = x.get_id()
+        if k in seen:
+            return
+        seen.add(k)
+        if z3.is_quantifier(x):
+            walk(x.body())
+            return
+        if z3.is_var(x):
+            return
+        if z3.is_const(x) and x.decl().kind() == z3.Z3_OP_UNINTERPRETED:
+            if k not in ex:
+                out.append(x)
+            return
+        for c in x.children():
+            walk(c)
+    walk(e)
+    return out
 
 
 class RecSum:
-    """S(p..., n) = sum_{k<n} term(p..., k).  Only instances of the two defining equations can be produced,
-    so using them as hypotheses is a conservative (definitional) extension."""
+    """S(p..., n) = sum_{k<n} term(p..., k)."""
 
     def __init__(self, name, param_sorts, term, sort=None):
         self.name = name
         self.term = term
         self.sort = sort or z3.RealSort()
-        self.f = z3.Function(name, *param_sorts, z3.IntSort(), self.sort)
+        self.param_sorts = list(param_sorts)
         self.nparams = len(param_sorts)
+        self._lifted = None
+
+    def _lift(self):
+        if self._lifted is not None:
+            return self._lifted
+        ph = [z3.Const("ph!%s!%d" % (self.name, i), s) for i, s in enumerate(self.param_sorts)]
+        kk = z3.Int("ph!%s!k" % self.name)
+        body = self.term(*ph, kk)
+        free = _free_consts(body, ph + [kk])
+        canon = [z3.Const("c!%d" % i, c.sort()) for i, c in enumerate(free)]
+        cbody = z3.substitute(body, *zip(free, canon)) if free else body
+        sig = cbody.sexpr() + "|" + "|".join(str(c.sort()) for c in canon)
+        key = "%s#%s" % (self.name, hashlib.sha1(sig.encode()).hexdigest()[:10])
+        if key not in _REG:
+            _REG[key] = z3.Function(key, *[c.sort() for c in free], *self.param_sorts, z3.IntSort(), self.sort)
+        self._lifted = (_REG[key], free, key)
+        return self._lifted
+
+    @property
+    def key(self):
+        return self._lift()[2]
 
     def __call__(self, *args):
-        assert len(args) == self.nparams + 1
-        return self.f(*[a if isinstance(a, z3.ExprRef) else z3.IntVal(a) for a in args])
+        f, free, _ = self._lift()
+        assert len(args) == self.nparams + 1, "%s: %d args" % (self.name, len(args))
+        a = [x if isinstance(x, z3.ExprRef) else z3.IntVal(x) for x in args]
+        return f(*free, *a)
 
     def zero(self, *params):
         z = z3.RealVal(0) if self.sort == z3.RealSort() else z3.IntVal(0)
@@ -25,11 +83,5 @@ class RecSum:
         """S(p, k+1) == S(p, k) + term(p, k)   (for k >= 0)"""
         params, k = args[:-1], args[-1]
         k = k if isinstance(k, z3.ExprRef) else z3.IntVal(k)
+        params = [p if isinstance(p, z3.ExprRef) else z3.IntVal(p) for p in params]
         return z3.Implies(k >= 0, self(*params, k + 1) == self(*params, k) + self.term(*params, k))
-
-    def defs_forall(self, bound_params):
-        """quantified form of both equations over the given bound parameter variables"""
-        k = z3.Int("k!" + self.name)
-        return [z3.ForAll(list(bound_params), self.zero(*bound_params)) if bound_params else self.zero(),
-                z3.ForAll(list(bound_params) + [k], self.unfold(*bound_params, k),
-                          patterns=[self(*bound_params, k + 1)])]
